@@ -120,7 +120,7 @@ func runSharded(r *core.Run, bin string, race bool, bound, threads, budget int, 
 	for p := 0; p < procs; p++ {
 		go func(p int) {
 			from, to := p*n/procs, (p+1)*n/procs
-			args := []string{"--bound", fmt.Sprint(bound), "--threads", fmt.Sprint(threads), "--budget", fmt.Sprint(budget), "--from", fmt.Sprint(from), "--to", fmt.Sprint(to)}
+			args := []string{"--bound", fmt.Sprint(bound), "--threads", fmt.Sprint(threads), "--budget", fmt.Sprint(budget), "--from", fmt.Sprint(from), "--to", fmt.Sprint(to), "--long-bound", fmt.Sprint(r.Pick(1, 2))}
 			if race {
 				args = append(args, "--raw")
 			}
